@@ -676,6 +676,10 @@ class Program:
                 elif isinstance(s, ast.Assign):
                     for t in s.targets:
                         if isinstance(t, ast.Name):
+                            if isinstance(s.value, ast.Name) and s.value.id in ci.methods:
+                                # `__iadd__ = __ior__`: a second name for a method defined above
+                                ci.methods[t.id] = ci.methods[s.value.id]
+                                continue
                             ci.attrs[t.id] = FieldInfo(t.id, q, None, s.value, s)
         elif isinstance(n, (ast.FunctionDef, ast.AsyncFunctionDef)):
             q = m.name + "." + n.name
